@@ -72,9 +72,11 @@ def run(rep: Report) -> None:
     where = f"{core.relpath}:{use.node.lineno} use"
 
     # ------------------------------------------------------------ (a) use()
-    def scenario(label, arg, expect):
+    def scenario(label, arg, expect, prelude=None):
         w = SelWorld(prog)
         it = Interp(prog, w)
+        if prelude is not None:
+            prelude(it, w)
         before = w.current
         try:
             ret = it.call_function(FuncV(use), [arg(w)], {})
@@ -115,6 +117,31 @@ def run(rep: Report) -> None:
                   key="use|invalid")
     scenario("use('no-such-engine') raises EngineNotFoundError and leaves the selection unchanged",
              lambda w: "no-such-engine", exp_bad)
+
+    # what a caller does with the dict get_available_engines() handed out is the caller's business
+    gae = prog.function("sym_metanet.engines.core", "get_available_engines")
+
+    def emptied(it, w):
+        d = it.call_function(FuncV(gae), [], {})
+        if isinstance(d, dict):
+            d.clear()
+
+    def extended(it, w):
+        d = it.call_function(FuncV(gae), [], {})
+        if isinstance(d, dict) and "numpy" in d:
+            d["no-such-engine"] = d["numpy"]
+
+    for name in ("casadi", "numpy"):
+        def exp_name2(label, w, before, outcome, cur, name=name):
+            ok = (outcome[0] == "return" and len(w.created) == 1 and w.current is w.created[0]
+                  and w.created[0].cls == ENGINE_CLS[name])
+            rep.check(ok, "selection", label, where,
+                      f"outcome {outcome[0]} {getattr(outcome[1], 'exc', outcome[1])!r}: the names use() accepts "
+                      "depend on what an earlier caller did to the dict it was given", key=f"use|{name}|emptied")
+        scenario(f"use('{name}') after a caller emptied the dict returned by get_available_engines()",
+                 lambda w, name=name: name, exp_name2, prelude=emptied)
+    scenario("use('no-such-engine') after a caller added that key to the dict returned by get_available_engines()",
+             lambda w: "no-such-engine", exp_bad, prelude=extended)
 
     # -------------------------------------------------------- (b) forwarding
     cks = wire_results(rep, "base") + wire_results(rep, "flags", impls=("casadi",))
